@@ -29,7 +29,8 @@
     named [_before_repair] keep the history of the three findings machine-checked. Section (6) at the end is
     about API faults on the owner GETs (namespaced RBAC that changes over time, transient 403 / 404 / 5xx). *)
 From Coq Require Import List String ZArith.
-From KaiV Require Import Model.Grouper Model.GrouperSpec Proofs.Grouper Model.GrouperFaults Proofs.GrouperFaults.
+From KaiV Require Import Model.Grouper Model.GrouperSpec Proofs.Grouper Model.GrouperFaults Proofs.GrouperFaults
+     Model.GrouperOrder Proofs.GrouperOrder.
 Import ListNotations.
 
 (** (1) Pods with the same top owner and the same template-derived fields (queue, project,
@@ -622,3 +623,60 @@ Theorem C18_forbidden_memo_splits_siblings :
       get_asg "train-0" s = get_asg "train-1" s).
 Proof. exact forbidden_memo_splits_siblings. Qed.
 Print Assumptions C18_forbidden_memo_splits_siblings.
+
+(** (7) ONE WORKLOAD WHOSE PODS CARRY DIFFERENT QUEUE / PROJECT LABELS (Model/GrouperOrder.v, Proofs/GrouperOrder.v;
+    the scenario of seeded/C18-5). (2) asks for a coherent pod set - equal group names mean equal metadata -, which
+    the roles of a PyTorchJob with their own labels are not. Spec.Queue is written when the PodGroup is created
+    and kept by ignoreFields ever after, so the queue of a PodGroup is the queue computed by the reconcile that
+    created it; CalcPodGroupQueue asks the TOP OWNER's label first, which every pod of the workload shares.
+
+    [reconcile_qr qr] is [reconcile] with the queue rule [qr] in the place of CalcPodGroupQueue, and with
+    [calc_queue] it is [reconcile] itself. *)
+Theorem C18_queue_rule_is_the_code :
+  forall cfg cl p s, reconcile_qr calc_queue cfg cl p s = reconcile cfg cl p s.
+Proof. exact queue_rule_is_the_code. Qed.
+Print Assumptions C18_queue_rule_is_the_code.
+
+(** For ALL configurations, owner objects and workloads whose top owner [top] carries the queue label [q], and ALL
+    reconcile orders [order1], [order2] of pods of that workload (any pods whose group is derived from [top], with
+    whatever other labels - own queue and project labels included -, any repetitions), each from the empty
+    store: every PodGroup has queue [q], so a PodGroup that both orders build has the same queue. *)
+Theorem C18_owner_queue_decides : owner_queue_statement calc_queue.
+Proof. exact owner_queue_decides. Qed.
+Print Assumptions C18_owner_queue_decides.
+
+(** ... the same about [run], the model the differential check replays against the real reconciler *)
+Theorem C18_owner_queue_order_independent :
+  forall cfg cl top q order1 order2 n g1 g2,
+    lookup (c_queue_key cfg) (o_labels top) = Some q ->
+    (forall p, In p order1 \/ In p order2 -> grouped_under cfg cl top p) ->
+    get_pg n (run cfg cl (map EvReconcile order1) empty_state) = Some g1 ->
+    get_pg n (run cfg cl (map EvReconcile order2) empty_state) = Some g2 ->
+    sp_queue g1 = q /\ sp_queue g2 = q.
+Proof. exact owner_queue_order_independent. Qed.
+Print Assumptions C18_owner_queue_order_independent.
+
+(** [calc_queue_pod_first] - the pod's own queue / project label beats the top owner's, seeded/C18-5 - is NOT the
+    code. The README world (workload train, queue team-a; master without queue label, two workers team-b; every
+    pod reconciled twice) in its six orders: the code gives team-a in all of them; the pod's label first gives
+    team-a in the two orders that start with the master and team-b in the four that start with a worker. *)
+Theorem C18_pod_label_first_depends_on_order :
+  map (rd_queue calc_queue rd_top) rd_orders = map (fun _ => Some "team-a"%string) rd_orders
+  /\ map (rd_queue calc_queue_pod_first rd_top) rd_orders
+     = [Some "team-a"; Some "team-a"; Some "team-b"; Some "team-b"; Some "team-b"; Some "team-b"]%string.
+Proof. exact pod_label_first_depends_on_order. Qed.
+Print Assumptions C18_pod_label_first_depends_on_order.
+
+Theorem C18_pod_label_first_refuted : ~ owner_queue_statement calc_queue_pod_first.
+Proof. exact pod_label_first_refuted. Qed.
+Print Assumptions C18_pod_label_first_refuted.
+
+(** PARTIAL: the hypothesis "the top owner carries the label" is needed by the code as it is. Owner without queue
+    label, master team-a, workers team-b: the pod reconciled first decides (candidate finding
+    C18-sibling-labels-first-pod-wins; the monitor's order clause reports exactly this pattern as flag 2). *)
+Theorem C18_first_pod_decides_without_owner_label :
+  rd_queue calc_queue rd_top_silent [rd_master_a; rd_worker0; rd_worker1] = Some "team-a"%string
+  /\ rd_queue calc_queue rd_top_silent [rd_worker0; rd_master_a; rd_worker1] = Some "team-b"%string
+  /\ rd_queue calc_queue rd_top_silent [rd_worker1; rd_worker0; rd_master_a] = Some "team-b"%string.
+Proof. exact first_pod_decides_without_owner_label. Qed.
+Print Assumptions C18_first_pod_decides_without_owner_label.
